@@ -31,6 +31,7 @@ Section ReceiveProofs.
   Variable parse_int : bytes -> option Z.
   Variable parse_tz : bytes -> option Z.
   Variable pc : precap.
+  Variable fp : faults.
 
   Notation closed := (closed unz parse_int parse_tz pc).
   Notation table_ok := (table_ok pc).
@@ -117,21 +118,29 @@ Section ReceiveProofs.
       + intros Hl. apply (commit_ok_ext st (add_com st k c)); [apply ext_add_com|]. apply (C3 _ _ Hl).
   Qed.
 
+  (** counting a Get changes no key *)
+  Lemma ext_bump st : ext st (bump_gets st).
+  Proof. unfold ext, bump_gets; cbn. repeat split; auto. Qed.
+  Lemma closed_bump st : closed st -> closed (bump_gets st).
+  Proof. intros Hc. eapply closed_ext; [exact Hc|apply ext_bump|reflexivity|reflexivity|reflexivity]. Qed.
+
   (** saveBlock *)
   Lemma save_block_closed st b r st' m :
-    closed st -> save_block H unz st b = (r, st', m) -> closed st' /\ ext st st'.
+    closed st -> save_block H unz fp st b = (r, st', m) -> closed st' /\ ext st st'.
   Proof.
     intros Hc. unfold save_block. destruct (unz b) as [content|] eqn:Eu.
-    - destruct (validate_block content) as [[]|e|] eqn:Ev; intros E; inversion E; subst;
+    - destruct (validate_block content) as [[]|e|] eqn:Ev;
+        [destruct (set_ok fp 0 st)| |]; intros E; inversion E; subst;
         try (split; [assumption|apply ext_refl]).
       split; [|apply ext_add_blk]. apply closed_add_blk; auto. exists content. auto.
     - intros E; inversion E; subst. split; [assumption|apply ext_refl].
   Qed.
 
   Lemma get_block_has_key st sum blk m :
-    get_block unz pc st sum = (Ok blk, m) -> has_key (st_blk st) sum = true.
+    get_block unz pc fp st sum = (Ok blk, m) -> has_key (st_blk st) sum = true.
   Proof.
-    unfold get_block. destruct (lookup (st_blk st) sum) eqn:E; [|discriminate].
+    unfold get_block. destruct (get_ok fp st); [|discriminate].
+    destruct (lookup (st_blk st) sum) eqn:E; [|discriminate].
     intros _. eapply lookup_has_key; eauto.
   Qed.
 
@@ -145,6 +154,9 @@ Section ReceiveProofs.
   Lemma only_blkidx_refl st : only_blkidx st st.
   Proof. unfold only_blkidx. tauto. Qed.
 
+  Lemma only_blkidx_bump st : only_blkidx st (bump_gets st).
+  Proof. unfold only_blkidx, bump_gets; cbn. tauto. Qed.
+
   Lemma only_blkidx_add st k : only_blkidx st (add_blkidx st k).
   Proof. unfold only_blkidx, add_blkidx; cbn. repeat split; auto. intros. now apply mem_cons. Qed.
 
@@ -154,34 +166,40 @@ Section ReceiveProofs.
     repeat split; try congruence. auto.
   Qed.
 
+  Lemma only_blkidx_ext st st' : only_blkidx st st' -> ext st st'.
+  Proof. intros (E1 & E2 & E3 & E4 & E5 & E6). unfold ext. rewrite E1, E3, E4, E5. repeat split; auto. Qed.
+
   Lemma index_blocks_only tbl : forall blocks st i m r st' m',
-    index_blocks unz idx_sum pc st tbl blocks i m = (r, st', m') -> only_blkidx st st'.
+    index_blocks unz idx_sum pc fp st tbl blocks i m = (r, st', m') -> only_blkidx st st'.
   Proof.
     induction blocks as [|sum blocks IH]; intros st i m r st' m' E; cbn [index_blocks] in E.
     - inversion E; subst. apply only_blkidx_refl.
-    - destruct (get_block unz pc st sum) as [rb mb].
-      destruct rb as [blk|e|]; try (inversion E; subst; apply only_blkidx_refl).
-      destruct blk as [|row blk]; [inversion E; subst; apply only_blkidx_refl|].
+    - destruct (get_block unz pc fp st sum) as [rb mb].
+      destruct rb as [blk|e|]; try (inversion E; subst; apply only_blkidx_bump).
+      destruct blk as [|row blk]; [inversion E; subst; apply only_blkidx_bump|].
       destruct (widths_ok (length (tb_columns tbl)) (row :: blk));
-        [|inversion E; subst; apply only_blkidx_refl].
-      destruct (idx (tb_indices tbl) i) as [x|e|];
-        try (inversion E; subst; apply only_blkidx_add).
-      destruct (beqb (idx_sum sum (tb_pk tbl)) x); [|inversion E; subst; apply only_blkidx_add].
-      apply IH in E. eapply only_blkidx_trans; [apply only_blkidx_add|exact E].
+        [|inversion E; subst; apply only_blkidx_bump].
+      destruct (set_ok fp 1 (bump_gets st)); [|inversion E; subst; apply only_blkidx_bump].
+      assert (Hb : only_blkidx st (add_blkidx (bump_gets st) (idx_sum sum (tb_pk tbl)))).
+      { eapply only_blkidx_trans; [apply only_blkidx_bump|apply only_blkidx_add]. }
+      destruct (idx (tb_indices tbl) i) as [x|e|]; try (inversion E; subst; exact Hb).
+      destruct (beqb (idx_sum sum (tb_pk tbl)) x); [|inversion E; subst; exact Hb].
+      apply IH in E. eapply only_blkidx_trans; [exact Hb|exact E].
   Qed.
 
   Lemma index_blocks_ok tbl : forall blocks st i m st' m',
-    index_blocks unz idx_sum pc st tbl blocks i m = (Ok tt, st', m') ->
+    index_blocks unz idx_sum pc fp st tbl blocks i m = (Ok tt, st', m') ->
     forall j b, nth_error blocks j = Some b ->
       has_key (st_blk st) b = true /\
       exists x, nth_error (tb_indices tbl) (i + j) = Some x /\ mem (st_blkidx st') x = true.
   Proof.
     induction blocks as [|sum blocks IH]; intros st i m st' m' E j b Hj; cbn [index_blocks] in E.
     - destruct j; discriminate.
-    - destruct (get_block unz pc st sum) as [rb mb] eqn:Eg.
+    - destruct (get_block unz pc fp st sum) as [rb mb] eqn:Eg.
       destruct rb as [blk|e|]; try discriminate.
       destruct blk as [|row blk]; [discriminate|].
       destruct (widths_ok (length (tb_columns tbl)) (row :: blk)); [|discriminate].
+      destruct (set_ok fp 1 (bump_gets st)); [|discriminate].
       unfold idx in E. destruct (nth_error (tb_indices tbl) i) as [x|] eqn:En; [|discriminate].
       destruct (beqb (idx_sum sum (tb_pk tbl)) x) eqn:Eb; [|discriminate].
       apply beqb_true in Eb.
@@ -194,12 +212,20 @@ Section ReceiveProofs.
         exists y. replace (i + S j)%nat with (S i + j)%nat by lia. auto.
   Qed.
 
-  Lemma profile_blocks_pure st blocks m : exists r m', profile_blocks unz pc st blocks m = (r, m').
-  Proof. destruct (profile_blocks unz pc st blocks m); eauto. Qed.
+  (** ProfileTable's reads change no key *)
+  Lemma profile_blocks_only : forall blocks st m r st' m',
+    profile_blocks unz pc fp st blocks m = (r, st', m') -> only_blkidx st st'.
+  Proof.
+    induction blocks as [|sum blocks IH]; intros st m r st' m' E; cbn [profile_blocks] in E.
+    - inversion E; subst. apply only_blkidx_refl.
+    - destruct (get_block unz pc fp st sum) as [rb mb].
+      destruct rb as [blk|e|]; try (inversion E; subst; apply only_blkidx_bump).
+      apply IH in E. eapply only_blkidx_trans; [apply only_blkidx_bump|exact E].
+  Qed.
 
   (** saveTable *)
   Lemma save_table_closed st b r st' m :
-    closed st -> save_table H unz idx_sum pc st b = (r, st', m) -> closed st' /\ ext st st'.
+    closed st -> save_table H unz idx_sum pc fp st b = (r, st', m) -> closed st' /\ ext st st'.
   Proof.
     intros Hc. unfold save_table.
     destruct (dec_on (table_read pc) b) as [rt m0] eqn:Ed.
@@ -207,39 +233,51 @@ Section ReceiveProofs.
     unfold index_table.
     destruct (existsb (fun k => N.of_nat (length (tb_columns tbl)) <=? k) (tb_pk tbl)).
     { intros E; inversion E; subst. split; [assumption|apply ext_refl]. }
-    destruct (index_blocks unz idx_sum pc st tbl (tb_blocks tbl) 0 0) as [[r0 st0] m1] eqn:Ei.
-    destruct (index_blocks_only _ _ _ _ _ _ _ _ Ei) as (E1 & E2 & E3 & E4 & E5 & E6).
-    assert (Hext0 : ext st st0).
-    { unfold ext. rewrite E1, E3, E4, E5. repeat split; auto. }
+    destruct (index_blocks unz idx_sum pc fp st tbl (tb_blocks tbl) 0 0) as [[r0 st0] m1] eqn:Ei.
+    pose proof (index_blocks_only _ _ _ _ _ _ _ _ Ei) as Ho0.
+    assert (Hext0 : ext st st0) by (now apply only_blkidx_ext).
+    destruct Ho0 as (E1 & E2 & E3 & E4 & E5 & E6).
     assert (Hc0 : closed st0) by (eapply closed_ext; eauto).
     destruct r0 as [[]|e|]; try (intros E; inversion E; subst; split; assumption).
+    destruct (set_ok fp 3 st0); [|intros E; inversion E; subst; split; assumption].
     unfold profile_table.
-    destruct (profile_blocks unz pc (add_tblidx st0 (H b)) (tb_blocks tbl) 0) as [r2 m2] eqn:Ep.
+    destruct (profile_blocks unz pc fp (add_tblidx st0 (H b)) (tb_blocks tbl) 0) as [[r2 st2] m2] eqn:Ep.
     assert (Hc1 : closed (add_tblidx st0 (H b))).
     { eapply closed_ext; [exact Hc0|apply ext_add_tblidx|reflexivity|reflexivity|reflexivity]. }
     assert (Hext1 : ext st (add_tblidx st0 (H b))) by (eapply ext_trans; [exact Hext0|apply ext_add_tblidx]).
+    pose proof (profile_blocks_only _ _ _ _ _ _ Ep) as Ho2.
+    assert (Hext2 : ext (add_tblidx st0 (H b)) st2) by (now apply only_blkidx_ext).
+    destruct Ho2 as (P1 & P2 & P3 & P4 & P5 & P6).
+    assert (Hc2 : closed st2) by (eapply closed_ext; eauto).
+    assert (Hext02 : ext st st2) by (eapply ext_trans; eauto).
     destruct r2 as [[]|e|]; try (intros E; inversion E; subst; split; assumption).
+    destruct (set_ok fp 4 st2); [|intros E; inversion E; subst; split; assumption].
+    destruct (set_ok fp 2 (add_tblprof st2 (H b))).
+    2:{ intros E; inversion E; subst. split.
+        - eapply closed_ext; [exact Hc2|apply ext_add_tblprof|reflexivity|reflexivity|reflexivity].
+        - eapply ext_trans; [exact Hext02|apply ext_add_tblprof]. }
     intros E; inversion E; subst. split.
     - apply closed_add_tbl.
-      + eapply closed_ext; [exact Hc1|apply ext_add_tblprof|reflexivity|reflexivity|reflexivity].
+      + eapply closed_ext; [exact Hc2|apply ext_add_tblprof|reflexivity|reflexivity|reflexivity].
       + exists tbl. split; [unfold table_of; now rewrite Ed|]. split; [|split].
         * intros i bsum Hn. destruct (index_blocks_ok _ _ _ _ _ _ _ Ei i bsum Hn) as [Hk (x & Hx & Hm)].
-          cbn [add_tblprof add_tblidx st_blk st_blkidx]. rewrite E1. split; [exact Hk|].
-          exists x. split; auto.
+          cbn [add_tblprof add_tblidx st_blk st_blkidx]. rewrite P1. cbn [add_tblidx st_blk]. rewrite E1.
+          split; [exact Hk|]. exists x. split; auto.
+        * cbn [add_tblprof st_tblidx]. rewrite P4. cbn. apply mem_head.
         * cbn. apply mem_head.
-        * cbn. apply mem_head.
-    - eapply ext_trans; [exact Hext1|]. eapply ext_trans; [apply ext_add_tblprof|apply ext_add_tbl].
+    - eapply ext_trans; [exact Hext02|]. eapply ext_trans; [apply ext_add_tblprof|apply ext_add_tbl].
   Qed.
 
   (** saveCommit *)
   Lemma save_commit_closed st b r st' m :
-    closed st -> save_commit H parse_int parse_tz st b = (r, st', m) -> closed st' /\ ext st st'.
+    closed st -> save_commit H parse_int parse_tz fp st b = (r, st', m) -> closed st' /\ ext st st'.
   Proof.
     intros Hc. unfold save_commit.
     destruct (dec_on (commit_read parse_int parse_tz) b) as [rc m0] eqn:Ed.
     destruct rc as [c|e|]; try (intros E; inversion E; subst; split; [assumption|apply ext_refl]).
     destruct (forallb (has_key (st_com st)) (c_parents c)) eqn:Ef;
-      intros E; inversion E; subst; [|split; [assumption|apply ext_refl]].
+      [destruct (set_ok fp 5 st)|]; intros E; inversion E; subst;
+      try (split; [assumption|apply ext_refl]).
     split; [|apply ext_add_com]. apply closed_add_com; auto.
     exists c. split; [unfold commit_of; now rewrite Ed|].
     intros p Hp. rewrite forallb_forall in Ef. now apply Ef.
@@ -247,24 +285,22 @@ Section ReceiveProofs.
 
   (** Receive *)
   Lemma receive_loop_closed F : forall fuel st s m r st' m',
-    closed st -> receive_loop H unz idx_sum parse_int parse_tz pc fuel F st s m = (r, st', m') ->
+    closed st -> receive_loop H unz idx_sum parse_int parse_tz pc fp fuel F st s m = (r, st', m') ->
     closed st' /\ ext st st'.
   Proof.
     induction fuel as [|fuel IH]; intros st s m r st' m' Hc E; cbn [receive_loop] in E.
     - inversion E; subst. split; [assumption|apply ext_refl].
     - destruct (exec_pure (object_read F) s m) as [[ro s1] m1].
       destruct ro as [[ot b]|e|].
-      + destruct (if ot =? 3 then save_block H unz st b
-                  else if ot =? 2 then save_table H unz idx_sum pc st b
-                  else if ot =? 1 then save_commit H parse_int parse_tz st b
-                  else if (ot =? 0) && match b with [] => true | _ :: _ => false end then (Ok tt, st, 0)
-                  else (Err COther, st, 0)) as [[r2 st2] m2] eqn:E2.
-        assert (Hc2 : closed st2 /\ ext st st2).
-        { destruct (ot =? 3); [eapply save_block_closed; eauto|].
-          destruct (ot =? 2); [eapply save_table_closed; eauto|].
-          destruct (ot =? 1); [eapply save_commit_closed; eauto|].
+      + match type of E with context [if ot =? 3 then ?a else ?x] =>
+          remember (if ot =? 3 then a else x) as X eqn:EX end.
+        assert (Hc2 : closed (snd (fst X)) /\ ext st (snd (fst X))).
+        { subst X. destruct (ot =? 3); [destruct (save_block H unz fp st b) as [[? ?] ?] eqn:E2; eapply save_block_closed; eauto|].
+          destruct (ot =? 2); [destruct (save_table H unz idx_sum pc fp st b) as [[? ?] ?] eqn:E2; eapply save_table_closed; eauto|].
+          destruct (ot =? 1); [destruct (save_commit H parse_int parse_tz fp st b) as [[? ?] ?] eqn:E2; eapply save_commit_closed; eauto|].
           destruct ((ot =? 0) && match b with [] => true | _ :: _ => false end);
-            inversion E2; subst; split; auto using ext_refl. }
+            cbn; split; auto using ext_refl. }
+        clear EX. destruct X as [[r2 st2] m2]. cbn [fst snd] in Hc2.
         destruct Hc2 as [Hc2 He2].
         destruct r2 as [[]|e2|]; try (inversion E; subst; split; assumption).
         apply IH in E; auto. destruct E as [E1 E3]. split; auto. eapply ext_trans; eauto.
@@ -272,8 +308,9 @@ Section ReceiveProofs.
       + inversion E; subst; split; auto using ext_refl.
   Qed.
 
+  (** for EVERY fault plan [fp] (which Set / which key prefix / which Get fails) *)
   Theorem receive_closed st pack r st' m :
-    closed st -> receive H unz idx_sum parse_int parse_tz pc st pack = (r, st', m) ->
+    closed st -> receive H unz idx_sum parse_int parse_tz pc fp st pack = (r, st', m) ->
     closed st' /\ ext st st'.
   Proof.
     intros Hc. unfold receive.
@@ -297,16 +334,16 @@ Proof.
   - specialize (IH s (m + c)). lia.
 Qed.
 
-Lemma receive_loop_meter_mono H unz idx_sum pi ptz pc F : forall fuel st s m,
-  m <= snd (receive_loop H unz idx_sum pi ptz pc fuel F st s m).
+Lemma receive_loop_meter_mono H unz idx_sum pi ptz pc fp F : forall fuel st s m,
+  m <= snd (receive_loop H unz idx_sum pi ptz pc fp fuel F st s m).
 Proof.
   induction fuel as [|fuel IH]; intros st s m; cbn [receive_loop]; [cbn; lia|].
   pose proof (exec_pure_meter_mono (object_read F) s m) as Hm.
   destruct (exec_pure (object_read F) s m) as [[ro s1] m1]. cbn [snd] in Hm.
   destruct ro as [[ot b]|e|]; [|destruct e; cbn; lia|cbn; lia].
-  destruct (if ot =? 3 then save_block H unz st b
-            else if ot =? 2 then save_table H unz idx_sum pc st b
-            else if ot =? 1 then save_commit H pi ptz st b
+  destruct (if ot =? 3 then save_block H unz fp st b
+            else if ot =? 2 then save_table H unz idx_sum pc fp st b
+            else if ot =? 1 then save_commit H pi ptz fp st b
             else if (ot =? 0) && match b with [] => true | _ :: _ => false end then (Ok tt, st, 0)
             else (Err COther, st, 0)) as [[r2 st2] m2].
   destruct r2 as [[]|e2|]; cbn [snd]; try lia.
@@ -319,27 +356,28 @@ Qed.
 Definition s2_witness : bytes :=
   [80; 65; 67; 75; 0; 0; 0; 1; 181; 0; 255; 255; 255; 255; 15].
 
-Lemma receive_loop_block_charge H unz idx_sum pi ptz pc F fuel st s m b s1 m1 :
+Lemma receive_loop_block_charge H unz idx_sum pi ptz pc fp F fuel st s m b s1 m1 :
   exec_pure (object_read F) s m = (Ok (3, b), s1, m1) ->
-  m1 + s2_charge b <= snd (receive_loop H unz idx_sum pi ptz pc (S fuel) F st s m).
+  m1 + s2_charge b <= snd (receive_loop H unz idx_sum pi ptz pc fp (S fuel) F st s m).
 Proof.
   intros E. cbn [receive_loop]. rewrite E. cbn [N.eqb Pos.eqb]. unfold save_block.
   destruct (unz b) as [content|]; [|cbn [snd]; lia].
   destruct (validate_block content) as [[]|e|]; cbn [snd]; try lia.
-  match goal with |- context [receive_loop _ _ _ _ _ _ ?f ?F0 ?st0 ?s0 ?m0] =>
-    pose proof (receive_loop_meter_mono H unz idx_sum pi ptz pc F0 f st0 s0 m0) as Hm end.
+  destruct (set_ok fp 0 st); cbn [snd]; try lia.
+  match goal with |- context [receive_loop _ _ _ _ _ _ _ ?f ?F0 ?st0 ?s0 ?m0] =>
+    pose proof (receive_loop_meter_mono H unz idx_sum pi ptz pc fp F0 f st0 s0 m0) as Hm end.
   lia.
 Qed.
 
-Theorem receive_s2_alloc H unz idx_sum pi ptz :
-  4294967295 <= snd (receive H unz idx_sum pi ptz precap_of_code empty_store s2_witness).
+Theorem receive_s2_alloc H unz idx_sum pi ptz fp :
+  4294967295 <= snd (receive H unz idx_sum pi ptz precap_of_code fp empty_store s2_witness).
 Proof.
   unfold receive.
   change (dec_fuel s2_witness) with (S 16).
   replace (exec_pure (packfile_version 17) s2_witness 0)
     with (@Ok N 1, [181; 0; 255; 255; 255; 255; 15], 12) by (vm_compute; reflexivity).
   cbv iota beta.
-  eapply N.le_trans; [|apply (receive_loop_block_charge H unz idx_sum pi ptz precap_of_code 17 16
+  eapply N.le_trans; [|apply (receive_loop_block_charge H unz idx_sum pi ptz precap_of_code fp 17 16
                                 empty_store _ 12 [255; 255; 255; 255; 15] [] 530);
                         vm_compute; reflexivity].
   vm_compute. discriminate.
@@ -384,12 +422,14 @@ Section ReceiveTotal.
   Variable parse_int : bytes -> option Z.
   Variable parse_tz : bytes -> option Z.
   Variable cp : N.
+  Variable fp : faults.
   Hypothesis unz_wf : forall b c, unz b = Some c -> wf_bytes c.
   Let pc := Capped cp.
 
-  Lemma get_block_good st sum : good_res (fst (get_block unz pc st sum)).
+  Lemma get_block_good st sum : good_res (fst (get_block unz pc fp st sum)).
   Proof.
-    unfold get_block. destruct (lookup (st_blk st) sum) as [comp|]; [|split; discriminate].
+    unfold get_block. destruct (get_ok fp st); [|split; discriminate].
+    destruct (lookup (st_blk st) sum) as [comp|]; [|split; discriminate].
     destruct (unz comp) as [dst|] eqn:Eu; [|split; discriminate].
     pose proof (dec_on_good 16 _ _ (block_read pc) _ dst (fun F => spec_block_read F cp) (unz_wf _ _ Eu)) as [Hg _].
     destruct (dec_on (block_read pc) dst) as [r m]. exact Hg.
@@ -397,31 +437,32 @@ Section ReceiveTotal.
 
   Lemma index_blocks_good tbl : forall blocks st i m,
     (i + length blocks <= length (tb_indices tbl))%nat ->
-    good_res (fst (fst (index_blocks unz idx_sum pc st tbl blocks i m))).
+    good_res (fst (fst (index_blocks unz idx_sum pc fp st tbl blocks i m))).
   Proof.
     induction blocks as [|sum blocks IH]; intros st i m Hl; cbn [index_blocks length] in *.
     - split; discriminate.
     - pose proof (get_block_good st sum) as Hg.
-      destruct (get_block unz pc st sum) as [rb mb]. cbn [fst] in Hg.
+      destruct (get_block unz pc fp st sum) as [rb mb]. cbn [fst] in Hg.
       destruct rb as [blk|e|]; [|split; discriminate|destruct Hg; congruence].
       destruct blk as [|row blk]; [split; discriminate|].
       destruct (widths_ok (length (tb_columns tbl)) (row :: blk)); [|split; discriminate].
+      destruct (set_ok fp 1 (bump_gets st)); [|split; discriminate].
       destruct (idx_ok (tb_indices tbl) i ltac:(lia)) as (x & -> & _).
       destruct (beqb (idx_sum sum (tb_pk tbl)) x); [|split; discriminate].
       apply IH. lia.
   Qed.
 
   Lemma profile_blocks_good : forall blocks st m,
-    good_res (fst (profile_blocks unz pc st blocks m)).
+    good_res (fst (fst (profile_blocks unz pc fp st blocks m))).
   Proof.
     induction blocks as [|sum blocks IH]; intros st m; cbn [profile_blocks].
     - split; discriminate.
     - pose proof (get_block_good st sum) as Hg.
-      destruct (get_block unz pc st sum) as [rb mb]. cbn [fst] in Hg.
+      destruct (get_block unz pc fp st sum) as [rb mb]. cbn [fst] in Hg.
       destruct rb as [blk|e|]; [apply IH|split; discriminate|destruct Hg; congruence].
   Qed.
 
-  Lemma save_table_good st b : wf_bytes b -> good_res (fst (fst (save_table H unz idx_sum pc st b))).
+  Lemma save_table_good st b : wf_bytes b -> good_res (fst (fst (save_table H unz idx_sum pc fp st b))).
   Proof.
     intros Hw. unfold save_table.
     pose proof (dec_on_good 16 _ _ (table_read pc) _ b (fun F => spec_table_read F cp) Hw) as [Hg HR].
@@ -431,36 +472,39 @@ Section ReceiveTotal.
     unfold index_table.
     destruct (existsb (fun k => N.of_nat (length (tb_columns tbl)) <=? k) (tb_pk tbl)); [split; discriminate|].
     pose proof (index_blocks_good tbl (tb_blocks tbl) st 0 0 ltac:(lia)) as Hi.
-    destruct (index_blocks unz idx_sum pc st tbl (tb_blocks tbl) 0 0) as [[r0 st0] m1]. cbn [fst] in Hi.
+    destruct (index_blocks unz idx_sum pc fp st tbl (tb_blocks tbl) 0 0) as [[r0 st0] m1]. cbn [fst] in Hi.
     destruct r0 as [[]|e|]; [|cbn [fst]; exact (good_err_cast _ Hi)|exact (good_panic_absurd _ Hi)].
+    destruct (set_ok fp 3 st0); [|split; discriminate].
     unfold profile_table.
     pose proof (profile_blocks_good (tb_blocks tbl) (add_tblidx st0 (H b)) 0) as Hp.
-    destruct (profile_blocks unz pc (add_tblidx st0 (H b)) (tb_blocks tbl) 0) as [r2 m2]. cbn [fst] in Hp.
-    destruct r2 as [[]|e|]; [split; discriminate|cbn [fst]; exact (good_err_cast _ Hp)|exact (good_panic_absurd _ Hp)].
+    destruct (profile_blocks unz pc fp (add_tblidx st0 (H b)) (tb_blocks tbl) 0) as [[r2 st2] m2]. cbn [fst] in Hp.
+    destruct r2 as [[]|e|]; [|cbn [fst]; exact (good_err_cast _ Hp)|exact (good_panic_absurd _ Hp)].
+    destruct (set_ok fp 4 st2); [|split; discriminate].
+    destruct (set_ok fp 2 (add_tblprof st2 (H b))); split; discriminate.
   Qed.
 
-  Lemma save_commit_good st b : wf_bytes b -> good_res (fst (fst (save_commit H parse_int parse_tz st b))).
+  Lemma save_commit_good st b : wf_bytes b -> good_res (fst (fst (save_commit H parse_int parse_tz fp st b))).
   Proof.
     intros Hw. unfold save_commit.
     pose proof (dec_on_good 16 _ _ (commit_read parse_int parse_tz) _ b (spec_commit_read parse_int parse_tz) Hw) as [Hg _].
     destruct (dec_on (commit_read parse_int parse_tz) b) as [rc m0]. cbn [fst] in *.
     destruct rc as [c|e|]; [|cbn [fst]; exact (good_err_cast _ Hg)|exact (good_panic_absurd _ Hg)].
-    destruct (forallb (has_key (st_com st)) (c_parents c)); split; discriminate.
+    destruct (forallb (has_key (st_com st)) (c_parents c)); [destruct (set_ok fp 5 st)|]; split; discriminate.
   Qed.
 
-  Lemma save_block_good st b : good_res (fst (fst (save_block H unz st b))).
+  Lemma save_block_good st b : good_res (fst (fst (save_block H unz fp st b))).
   Proof.
     unfold save_block. destruct (unz b) as [content|]; [|split; discriminate].
     pose proof (validate_block_total content) as [V1 V2].
     destruct (validate_block content) as [[]|e|]; cbn [fst].
-    - split; discriminate.
+    - destruct (set_ok fp 0 st); split; discriminate.
     - split; [discriminate|exact V2].
     - exfalso. now apply V1.
   Qed.
 
   Lemma receive_loop_good F : forall fuel st s m,
     (length s < fuel)%nat -> (length s < F)%nat -> wf_bytes s ->
-    good_res (fst (fst (receive_loop H unz idx_sum parse_int parse_tz pc fuel F st s m))).
+    good_res (fst (fst (receive_loop H unz idx_sum parse_int parse_tz pc fp fuel F st s m))).
   Proof.
     induction fuel as [|fuel IH]; intros st s m Hf HF Hw; [lia|]. cbn [receive_loop].
     destruct (spec_exec F c_pack _ _ (object_read F) _ s m (spec_object_read F) HF Hw)
@@ -483,7 +527,7 @@ Section ReceiveTotal.
   Qed.
 
   Theorem receive_total st pack : wf_bytes pack ->
-    good_res (fst (fst (receive H unz idx_sum parse_int parse_tz pc st pack))).
+    good_res (fst (fst (receive H unz idx_sum parse_int parse_tz pc fp st pack))).
   Proof.
     intros Hw. unfold receive.
     destruct (spec_exec (dec_fuel pack) c_pack _ _ (packfile_version (dec_fuel pack)) _ pack 0
@@ -495,3 +539,118 @@ Section ReceiveTotal.
     apply receive_loop_good; auto; unfold dec_fuel; lia.
   Qed.
 End ReceiveTotal.
+
+(** ** The persistence-layer readers (GetCommit, GetTable, GetBlock, GetBlockIndex,
+    GetTableIndex, GetTableProfile) on hostile stored values *)
+Lemma dec_on_robust {A} c (J K : Z) (k : N) (D : nat -> prog A) (R : A -> nat -> Prop) b :
+  (forall F, spec F c (fun _ => J) K (D F) R) -> (J <= Z.of_N k)%Z -> (K <= Z.of_N k)%Z ->
+  wf_bytes b ->
+  good_res (fst (dec_on D b)) /\ snd (dec_on D b) <= c * N.of_nat (length b) + k.
+Proof.
+  intros Hs HJ HK Hw. unfold dec_on.
+  destruct (Hs (dec_fuel b) b 0 ltac:(unfold dec_fuel; lia) Hw) as (r & d & s' & dm & E & Es & P).
+  rewrite E. cbn [fst snd].
+  assert (Hlen : (length d <= length b)%nat) by (subst b; rewrite app_length; lia).
+  destruct r as [a|e|]; cbn in P.
+  - destruct P as [P1 _]. split; [split; discriminate|nia].
+  - destruct P as [P1 P2]. split; [split; [discriminate|congruence]|nia].
+  - destruct P.
+Qed.
+
+Definition stored_wf (v : option bytes) : Prop := forall b, v = Some b -> wf_bytes b.
+
+Section StoreReaders.
+  Variable parse_int : bytes -> option Z.
+  Variable parse_tz : bytes -> option Z.
+  Let pc := precap_of_code.
+
+  Lemma set_sum_good {A} (r : res A) : good_res r -> good_res (set_sum true r).
+  Proof. destruct r; cbn; auto. Qed.
+
+  Theorem get_commit_robust v : stored_wf v ->
+    good_res (fst (get_commit parse_int parse_tz true v)) /\
+    forall b, v = Some b -> snd (get_commit parse_int parse_tz true v) <= 16 * N.of_nat (length b) + 196817.
+  Proof.
+    intros Hw. unfold get_commit. destruct v as [b|]; [|split; [split; discriminate|discriminate]].
+    destruct (dec_on_robust 16 100%Z (K_string + 200)%Z 196817 (commit_read parse_int parse_tz) _ b
+                (spec_commit_read parse_int parse_tz) ltac:(lia) ltac:(unfold K_string; lia) (Hw b eq_refl)) as [Hg Ha].
+    destruct (dec_on (commit_read parse_int parse_tz) b) as [r m]. cbn [fst snd] in *.
+    split; [now apply set_sum_good|]. intros b' E; inversion E; subst; exact Ha.
+  Qed.
+
+  Theorem get_table_robust v : stored_wf v ->
+    good_res (fst (get_table pc true v)) /\
+    forall b, v = Some b -> snd (get_table pc true v) <= 16 * N.of_nat (length b) + 865536.
+  Proof.
+    intros Hw. unfold get_table. destruct v as [b|]; [|split; [split; discriminate|discriminate]].
+    destruct (dec_on_robust 16 262100%Z (K_table max_prealloc) 865536 (table_read pc) _ b
+                (fun F => spec_table_read F max_prealloc) ltac:(lia) ltac:(unfold K_table, max_prealloc; lia) (Hw b eq_refl)) as [Hg Ha].
+    destruct (dec_on (table_read pc) b) as [r m]. cbn [fst snd] in *.
+    split; [now apply set_sum_good|]. intros b' E; inversion E; subst; exact Ha.
+  Qed.
+
+  Theorem get_table_index_robust v : stored_wf v ->
+    good_res (fst (get_table_index pc v)) /\
+    forall b, v = Some b -> snd (get_table_index pc v) <= 16 * N.of_nat (length b) + 840960.
+  Proof.
+    intros Hw. unfold get_table_index, load_plain. destruct v as [b|]; [|split; [split; discriminate|discriminate]].
+    destruct (dec_on_robust 16 262100%Z (K_block max_prealloc) 840960 (block_read pc) _ b
+                (fun F => spec_block_read F max_prealloc) ltac:(lia) ltac:(unfold K_block, max_prealloc; lia) (Hw b eq_refl)) as [Hg Ha].
+    split; [exact Hg|]. intros b' E; inversion E; subst; exact Ha.
+  Qed.
+
+  Theorem get_table_profile_robust v : stored_wf v ->
+    good_res (fst (get_table_profile pc v)) /\
+    forall b, v = Some b -> snd (get_table_profile pc v) <= 96 * N.of_nat (length b) + 849152.
+  Proof.
+    intros Hw. unfold get_table_profile, load_plain. destruct v as [b|]; [|split; [split; discriminate|discriminate]].
+    destruct (dec_on_robust 96 262100%Z (K_profile max_prealloc) 849152 (profile_read pc) _ b
+                (fun F => spec_profile_read F max_prealloc) ltac:(lia) ltac:(unfold K_profile, max_prealloc; lia) (Hw b eq_refl)) as [Hg Ha].
+    split; [exact Hg|]. intros b' E; inversion E; subst; exact Ha.
+  Qed.
+
+End StoreReaders.
+
+Section StoreReadersS2.
+  Variable unz : bytes -> option bytes.
+  Hypothesis unz_wf : forall b c, unz b = Some c -> wf_bytes c.
+  Let pc := precap_of_code.
+
+  Theorem load_block_good v : good_res (fst (load_block unz pc v)).
+  Proof.
+    unfold load_block, load_s2. destruct v as [comp|]; [|split; discriminate].
+    destruct (unz comp) as [dst|] eqn:Eu; [|split; discriminate].
+    destruct (dec_on_robust 16 262100%Z (K_block max_prealloc) 840960 (block_read pc) _ dst
+                (fun F => spec_block_read F max_prealloc) ltac:(lia) ltac:(unfold K_block, max_prealloc; lia) (unz_wf _ _ Eu)) as [Hg _].
+    destruct (dec_on (block_read pc) dst) as [r m]. exact Hg.
+  Qed.
+
+  Theorem load_block_index_good v : good_res (fst (load_block_index unz v)).
+  Proof.
+    unfold load_block_index, load_s2. destruct v as [comp|]; [|split; discriminate].
+    destruct (unz comp) as [dst|] eqn:Eu; [|split; discriminate].
+    destruct (dec_on_robust 16 6500%Z 6500%Z 6500 blockindex_read _ dst
+                spec_blockindex_read ltac:(lia) ltac:(lia) (unz_wf _ _ Eu)) as [Hg _].
+    destruct (dec_on blockindex_read dst) as [r m]. exact Hg.
+  Qed.
+
+End StoreReadersS2.
+
+(** a reader that returns NO object together with its error: the .Sum assignment of
+    GetCommit / GetTable dereferences nil *)
+Theorem get_nil_object_panics (parse_int parse_tz : bytes -> option Z) :
+  fst (get_commit parse_int parse_tz false (Some [])) = Panic /\
+  fst (get_table precap_of_code false (Some [])) = Panic.
+Proof. split; reflexivity. Qed.
+
+(** GetBlock / GetBlockIndex: s2.Decode allocates the announced length first *)
+Theorem load_block_s2_alloc (unz : bytes -> option bytes) :
+  4294967295 <= snd (load_block unz precap_of_code (Some [255; 255; 255; 255; 15])) /\
+  4294967295 <= snd (load_block_index unz (Some [255; 255; 255; 255; 15])).
+Proof.
+  unfold load_block, load_block_index, load_s2.
+  change (s2_charge [255; 255; 255; 255; 15]) with 4294967295.
+  destruct (unz [255; 255; 255; 255; 15]) as [dst|].
+  - destruct (dec_on (block_read precap_of_code) dst), (dec_on blockindex_read dst). cbn [snd]. lia.
+  - cbn [snd]. lia.
+Qed.
